@@ -34,9 +34,12 @@ def main():
     out = ['| variant | change | first rule of its own check | checks that exit 1 | exit 2 |', '|---|---|---|---|---|'] + rows_b
     alarmed = [(n, h, i) for n, h, i in rows_t if h or i]
     out.append('')
-    out.append('Behaviour-preserving twins: %d variants x %d checks = %d runs, %d alarms%s.' % (
-        len(rows_t), len(PIDS), len(rows_t) * len(PIDS), sum(len(h) + len(i) for n, h, i in alarmed),
-        '' if not alarmed else ' (' + '; '.join('%s: %s' % (n, ' '.join(h + i)) for n, h, i in alarmed) + ')'))
+    false_viol = [(n, h) for n, h, i in alarmed if h]
+    inconc = [(n, i) for n, h, i in alarmed if i]
+    out.append('Behaviour-preserving twins: %d variants x %d checks = %d runs: %d false VIOLATION (exit 1)%s; %d inconclusive (exit 2, "outside the recognised fragment", never a VIOLATION line)%s.' % (
+        len(rows_t), len(PIDS), len(rows_t) * len(PIDS), sum(len(h) for n, h in false_viol),
+        '' if not false_viol else ' (' + '; '.join('%s: %s' % (n, ' '.join(h)) for n, h in false_viol) + ')',
+        sum(len(i) for n, i in inconc), '' if not inconc else ' (' + '; '.join('%s: %s' % (n, ' '.join(i)) for n, i in inconc) + ')'))
     text = '\n'.join(out)
     p = os.path.join(VERIF, 'DESIGN.md')
     s = open(p).read()
